@@ -20,13 +20,25 @@ try:
         targets += spec["lean_modules"]
 except Exception as e:  # noqa: BLE001
     print("setup: could not read the manifest/specs:", e)
-ok1, log1 = hv.lake_build(sorted(set(targets), key=targets.index))
+if "--lean-only" in sys.argv:
+    ok1, log1 = hv.lake_build(sorted(set(targets), key=targets.index))
+    if not ok1:
+        print(log1[-6000:])
+    print("gate: lean", "ok" if ok1 else "FAILED")
+    sys.exit(0 if ok1 else 1)
+# the model driver must build; a proof module that does not build is reported here but does not stop the set-up: the
+# check of the property it belongs to then reports the broken proof obligation itself (and searches for a failing input)
+ok1, log1 = hv.lake_build(["hcmodel"])
 if not ok1:
     print(log1[-4000:])
+okp, logp = hv.lake_build(sorted(set(targets), key=targets.index))
+if not okp:
+    print(logp[-4000:])
+    print("setup: WARNING: some proof modules do not build; the checks of the properties they belong to will report it")
 ok2, log2 = hv.cargo_build()
 if not ok2:
     print(log2[-4000:])
-msgs = ["lean ok" if ok1 else "lean FAILED", "harness ok" if ok2 else "harness FAILED"]
+msgs = [("lean ok" if okp else "lean driver ok, proof modules INCOMPLETE") if ok1 else "lean FAILED", "harness ok" if ok2 else "harness FAILED"]
 ok = ok1 and ok2
 # the two slower harnesses (bevy; vendored fast-stm): built here so that the first quick check does not pay for them
 try:
